@@ -7,14 +7,21 @@ OUT="$V/seeded/RERUN.md"; TMP="$(mktemp -d /work/rerun.XXXX)"
 ls -d "$V"/seeded/${PFX}*/ | while read d; do
   id="$(basename "$d")"
   [ -f "$d/meta.json" ] || continue
-  by="$(python3 -c "import json;m=json.load(open('$d/meta.json'));print(m['check'].get('caught_by') or '')")"
+  by="$(python3 -c "import json;m=json.load(open('$d/meta.json'));c=m['check'];print(c.get('caught_by') or (m['property'] if c.get('caught') else ''))")"
   [ -n "$by" ] && echo "$id $by"
-done > "$TMP/jobs"
+done > "$TMP/jobs.all"
+if [ "${4:-}" = "--missing" ] && [ -f "$OUT" ]; then
+  grep -o '^| [^ ]* ' "$OUT" | awk '{print $2}' > "$TMP/done"
+  grep -v -w -F -f "$TMP/done" "$TMP/jobs.all" > "$TMP/jobs"
+  grep '^| [a-zA-Z0-9_]* | C' "$OUT" | sed 's/^| //; s/ | / /; s/ | / /; s/ | / /; s/ |$//' > "$TMP/res.0"
+else
+  cp "$TMP/jobs.all" "$TMP/jobs"
+fi
 stream() {
   k=$1; i=0
   while read id by; do
     i=$((i+1)); [ $((i % N)) -eq $((k % N)) ] || continue
-    o="$(VERIF_SCRATCH=/work/rr$k "$V/bin/mutant" "$by" "$V/seeded/$id/patch.diff" --secs "$SECS" 2>&1)"
+    o="$(VERIF_SCRATCH=/work/rr$k "$V/bin/mutant" "$by" "$V/seeded/$id/patch.diff" --secs "$SECS" 2>&1 </dev/null)"
     rc="$(echo "$o" | grep -a 'mutant verdict' | sed 's/.*exit //')"
     cl="$(echo "$o" | grep -a '^violation:' | head -1 | cut -c1-160)"
     echo "$id $by ${rc:-?} $cl" >> "$TMP/res.$k"
